@@ -3,11 +3,17 @@
 # J at a time; results land in seeded/<dir>/detection.json (bin/run_seed.sh).
 J=${1:-4}
 cd /verif
-extra() { case "$1" in
-  C06-m2) echo "C06 C02 C01";; C16-m1) echo "C16 C01";; C16-m2) echo "C16";; C18-m2) echo "C18 C14";;
-  C02-m1) echo "C02 C05 C04";; C04-m1) echo "C04 C05 C02";; C04-m2) echo "C04 C03";; C03-m2) echo "C03";;
-  C10-m2) echo "C10 C02 C05";; C01-m2) echo "C01 C02";; C13-m1) echo "C13";; C14-m1) echo "C14";;
-  *) echo "${1%%-*}";; esac; }
+# extra checks to run besides the property's own: whatever caught the change before (detection.json)
+extra() { python3 - "$1" <<'PY'
+import json,sys,os
+S=sys.argv[1]; own=S.split("-")[0]; cs=[own]
+try:
+    d=json.load(open("/verif/seeded/%s/detection.json"%S))
+    cs+=[c for c in sorted(d.get("results",{})) if c!=own and d["results"][c]["exit"]==1]
+except Exception: pass
+print(" ".join(cs))
+PY
+}
 ls seeded | while read S; do echo "$S $(extra $S)"; done | xargs -P $J -L 1 bash -c 'bin/run_seed.sh "$@" > /var/tmp/sweep-$0.log 2>&1' 
 for S in $(ls seeded); do python3 - "$S" <<'PY'
 import json,sys
